@@ -12,6 +12,14 @@ families, the documented graph as the oracle).  Strata:
   short      all request sequences up to length 3 over a reduced alphabet
              (one first symbol per run)
   sequences  seeded random request sequences (<= 40) over 1-3 invocations
+
+Engine B (threaded simulation), stratum conc-mem / conc-sqlite: two to four
+requesters issue raw status requests on the same one or two invocations
+concurrently under the seeded scheduler (in-memory: every source line of the
+orchestrator is a pre-emption point; SQLite: every statement); the accepted
+writes, ordered by the record's own time, must still be a path of the
+documented graph with ownership (a request validated against a stale record
+shows up as an illegal step or as a final status that was left).
 """
 
 from __future__ import annotations
@@ -27,8 +35,8 @@ from workloads import simtasks
 
 PROPERTY = "C01"
 LEVEL = "exploration"
-ENGINES = ['A']
-TECHNIQUE = 'deterministic simulation (sequential engine): seeded + enumerated request sequences on both real orchestrators under a virtual clock, oracle = documented lifecycle graph + ownership axioms'
+ENGINES = ['A', 'B']
+TECHNIQUE = 'deterministic simulation: seeded + enumerated request sequences on both real orchestrators under a virtual clock (sequential engine) and concurrent raw requests under the seeded thread scheduler (threaded engine); oracle = documented lifecycle graph + ownership axioms'
 LEVEL_TEXT = 'Every run drives real MemOrchestrator and SQLiteOrchestrator objects through set_invocation_status under the simulated clock and compares outcome class, status, owner and timestamp with a reference lifecycle parsed from the documentation (never from status.py). The single-step table (every reachable (status, owner) x 14 requests x 3 requesters) and all sequences <= 3 over a reduced alphabet are fully covered strata of the seeded generator; longer sequences are sampled. This is exploration: the finite table is covered completely, histories are sampled.'
 LEVEL_NOTE = "Trusted: the reference model (models/lifecycle.py), the SVG's data-edge attributes as 'the documented graph', simkit's clock/uuid shims. History writer threads run inline. Unreachable (status, owner) pairs are counted, not tested."
 MINIMIZE = "ops"
@@ -47,7 +55,7 @@ ASSUMPTIONS = [
 REAL = ["status.py", "MemOrchestrator", "SQLiteOrchestrator", "BaseOrchestrator.set_invocation_status", "state backends (history)", "trigger.report_tasks_status", "SQLite engine"]
 STUBBED = ["wall clock (virtual)", "uuid4", "history writer threads run inline"]
 EXHAUSTIVE_NOTE = "stratum 'table' enumerates every reachable source state when runs >= number of reachable states; stratum 'short' enumerates all sequences <= 3 over the reduced alphabet when runs >= 12"
-PROBES = ["accepted", "refused_transition", "refused_ownership", "final_left_attempt", "recovery_override"]
+PROBES = ["accepted", "refused_transition", "refused_ownership", "final_left_attempt", "recovery_override", "concurrent_requests_interleaved"]
 
 REQUESTERS: list[str | None] = [None, "r1", "r2"]
 SHORT_ALPHABET = [(s, r) for s in ("PENDING", "RUNNING", "SUCCESS", "KILLED", "REROUTED", "PENDING_RECOVERY") for r in ("r1", "r2")]
@@ -69,6 +77,8 @@ def plan(tier: str) -> list[dict]:
         {"stratum": "unknown", "runs": 1, "params": {"mode": "unknown"}, "chunk": 1},
         {"stratum": "short", "runs": 12, "params": {"mode": "short"}, "chunk": 1},
         {"stratum": "sequences", "runs": n_seq, "params": {"mode": "seq", "max_len": 40}, "chunk": 16 if tier == "quick" else 64},
+        {"stratum": "conc-mem", "runs": 192 if tier == "quick" else 8000, "params": {"mode": "conc", "stack": "mem"}, "chunk": 12 if tier == "quick" else 200},
+        {"stratum": "conc-sqlite", "runs": 96 if tier == "quick" else 4000, "params": {"mode": "conc", "stack": "sqlite"}, "chunk": 6 if tier == "quick" else 100},
     ]
 
 
@@ -219,8 +229,101 @@ def _result(h: Harness, sample: Any, ops: Any = None) -> dict:
     }
 
 
+CONC_TRACE = ["orchestrator/base_orchestrator.py", "orchestrator/mem_orchestrator.py"]
+
+
+def _run_conc(seed: int, stack: str, replay: dict | None) -> dict:
+    import random
+
+    from pynenc.runner.runner_context import RunnerContext
+    from simkit.world import World, check_transition_paths
+
+    rng = random.Random(f"{seed}:c01conc")
+    n_req = rng.choice([2, 2, 3, 4])
+    policy = rng.choice(["rand", "rand", "pct", "rr"])
+    parg = {"rand": rng.choice([0.1, 0.25, 0.5]), "pct": rng.choice([1, 2, 3]), "rr": rng.choice([1, 2, 3])}[policy]
+    actors = [f"r{i + 1}" for i in range(n_req)]
+    n_inv = rng.choice([1, 1, 2])
+    # a legal prefix brings the invocation somewhere interesting, then everybody fires requests at once
+    prefix = rng.choice([[], [("PENDING", "r1")], [("PENDING", "r1"), ("RUNNING", "r1")], [("PENDING", "r1"), ("RUNNING", "r1"), ("SUCCESS", "r1")], [("PENDING", "r1"), ("RUNNING", "r1"), ("RETRY", "r1")], [("PENDING", "r1"), ("RUNNING", "r1"), ("PAUSED", "r1")]])
+    # each requester follows its own plausible continuation of the prefix (what it would do if it were alone),
+    # sprinkled with arbitrary requests: several of them are legal from the same state, so they collide
+    def plan_for(a: str) -> list[tuple[int, str]]:
+        out = []
+        cur: dict[int, tuple[str, Any]] = {}
+        for _ in range(rng.randint(2, 5)):
+            k = rng.randrange(n_inv)
+            state = cur.get(k)
+            if state is None:
+                state = ("REGISTERED", None)
+                for st_, who in prefix:
+                    o_, nx = lc().step(state, st_, who)
+                    state = nx if o_ == "ok" else state
+            legal = [s_ for s_ in sorted(ALL) if s_ != "REGISTERED" and lc().step(state, s_, a)[0] == "ok"]
+            if legal and rng.random() < 0.7:
+                s_ = rng.choice(legal)
+                cur[k] = lc().step(state, s_, a)[1]
+            else:
+                s_ = rng.choice(sorted(set(ALL) - {"REGISTERED"}))
+            out.append((k, s_))
+        return out
+
+    plans = {a: plan_for(a) for a in actors}
+    schedule = replay.get("schedule") if replay else None
+    viol: list[dict] = []
+    with World(seed, stack, actors, policy=policy, policy_arg=parg, schedule=schedule, trace_files=CONC_TRACE if stack == "mem" else None, max_steps=40000, conf={"cached_status_time": 0.0}) as w:
+        sim = w.sim
+        tasks = w.register(simtasks.add)
+        ids = [str(tasks["r1"](i, 1).invocation_id) for i in range(n_inv)]
+        ctxs = {a: RunnerContext(runner_cls="SimRunner", runner_id=a) for a in actors}
+        for st_, who in prefix:
+            for i in ids:
+                w.apps[who].orchestrator.set_invocation_status(i, _status_enum(st_), ctxs[who])
+        outcomes: list[tuple[str, str, str, str]] = []
+
+        def main_of(a: str) -> Any:
+            def main() -> None:
+                app = w.apps[a]
+                for k, st_ in plans[a]:
+                    try:
+                        app.orchestrator.set_invocation_status(ids[k], _status_enum(st_), ctxs[a])
+                        outcomes.append((a, w.alias(ids[k]), st_, "ok"))
+                    except Exception as e:  # noqa: BLE001  refusals are expected
+                        outcomes.append((a, w.alias(ids[k]), st_, type(e).__name__))
+
+            return main
+
+        w.run([(a, "main", main_of(a)) for a in actors])
+        common = w.result_common()
+        st = common["stats"]
+        if sim.abort_reason:
+            common["inconclusive"] = True
+        for n, e in sim.thread_exceptions:
+            viol.append({"signature": f"C01/conc/{stack}/thread-died/{type(e).__name__}", "message": f"{n}: {type(e).__name__}: {e}"})
+        for sig, msg in check_transition_paths(w.tlog, lc()):
+            viol.append({"signature": f"C01/conc/{stack}/{sig}", "message": msg + f"; requests: {outcomes}"})
+        bad = [o for o in outcomes if o[3] not in ("ok", "InvocationStatusTransitionError", "InvocationStatusOwnershipError", "InvocationStatusRaceConditionError")]
+        for o in bad:
+            viol.append({"signature": f"C01/conc/{stack}/unexpected-error/{o[3]}", "message": f"request {o[2]} by {o[0]} on {o[1]} raised {o[3]} (neither accepted nor a status error)"})
+        n_ok = sum(1 for o in outcomes if o[3] == "ok")
+        st["probe.accepted"] = n_ok
+        st["probe.refused_transition"] = sum(1 for o in outcomes if o[3] == "InvocationStatusTransitionError")
+        st["probe.refused_ownership"] = sum(1 for o in outcomes if o[3] == "InvocationStatusOwnershipError")
+        st["probe.concurrent_requests_interleaved"] = 1 if len(sim.switch_sites) > 0 else 0
+        common.update(
+            {
+                "violations": viol,
+                "nontrivial": n_ok >= 1 and n_ok < len(outcomes) and len(sim.switch_sites) > 0,
+                "sample": {"stack": stack, "requesters": n_req, "policy": [policy, parg], "prefix": prefix, "plans": {a: [[k, s_] for k, s_ in pl] for a, pl in plans.items()}, "outcomes": [list(o) for o in outcomes][:20]},
+            }
+        )
+        return common
+
+
 def run(seed: int, params: dict, replay: dict | None = None) -> dict:
     mode = params["mode"]
+    if mode == "conc":
+        return _run_conc(seed, params["stack"], replay)
     with SeqEnv(seed) as env:
         h = Harness(env)
         if replay and replay.get("ops") is not None:
